@@ -108,6 +108,11 @@ class Repo:
                 if overrides and name in overrides:
                     tree = overrides[name]
                 self.modules[name] = ModuleInfo(name, rel, src, tree)
+        self.aligned = []
+        if os.environ.get('VERIF_NO_ALIGN') != '1':
+            from . import align
+            for m in self.modules.values():
+                self.aligned += align.align_module(m)
         self._const_cache = {}
         self._names_cache = {}
 
@@ -121,6 +126,7 @@ class Repo:
         ast.fix_missing_locations(tree)
         r = Repo.__new__(Repo)
         r.root = self.root
+        r.aligned = self.aligned
         r.files_parsed = self.files_parsed
         r.modules = dict(self.modules)
         m = self.modules[modname]
@@ -603,6 +609,7 @@ class Ctx:
         self.inspected = []   # human-readable description of constructs examined
         self.sites = 0
         self.notes = []
+        self.unsure_msgs = []
 
     def saw(self, what, n=1):
         self.sites += n
@@ -627,6 +634,42 @@ class Ctx:
 
     def note(self, s):
         self.notes.append(s)
+
+    # ---- classify-or-undecided comparison of source expressions -------------------------------------
+    def unsure(self, msg):
+        """deferred `undecided`: remembered, raised after the obligation ran unless it reported a finding"""
+        self.unsure_msgs.append(msg)
+
+    def match(self, qual, what, got, exp, fn=None, node=None, why=''):
+        """Compare the expression ``got`` (AST node, normalised text or None) with the expected normalised text(s) ``exp``.
+        equal -> True.  missing -> finding.  different and built only from *stable* names (parameters, self/cls attributes,
+        module-level names, constants) -> finding: the difference cannot be a renamed local.  different and mentioning a local
+        variable of ``fn`` -> unsure (exit 2 unless something else is violated): it may be the same value under another name."""
+        exps = (exp,) if isinstance(exp, str) else tuple(exp)
+        got_node = got if isinstance(got, ast.AST) else None
+        text = norm(got) if isinstance(got, ast.AST) else got
+        if text in exps:
+            return True
+        if text is None:
+            self.violate(qual, '%s is missing (expected `%s`)' % (what, exps[0]), node, why)
+            return False
+        if got_node is None:
+            try:
+                got_node = ast.parse(text, mode='eval').body
+            except SyntaxError:
+                got_node = None
+        locs = local_names(fn) if fn is not None else set()
+        if got_node is not None and fn is not None:
+            got_node = resolve_locals(got_node, fn)
+            rtext = norm(got_node)
+            if rtext in exps:
+                return True
+        free = free_names(got_node) if got_node is not None else set()
+        if got_node is not None and not (free & locs):
+            self.violate(qual, '%s is `%s`, expected `%s`' % (what, text, exps[0]), node if node is not None else got_node, why)
+        else:
+            self.unsure('%s: %s is `%s`, expected `%s`; it mentions local names %s and may be the same value' % (qual, what, text, exps[0], sorted(free & locs)))
+        return False
 
 
 class Obligation:
@@ -667,7 +710,77 @@ def load_known_findings():
 def run_obligation(repo, ob):
     ctx = Ctx(repo, ob.oid)
     ob.fn(ctx)
+    if ctx.unsure_msgs and not ctx.findings:
+        raise AnalysisError('%s: %s' % (ob.oid, ctx.unsure_msgs[0]))
     return ctx
+
+
+_LOCALS_CACHE = {}
+
+
+def free_names(node):
+    """names read by an expression that are not bound inside it (comprehension targets, lambda parameters)"""
+    bound = set()
+    for n in ast.walk(node):
+        if isinstance(n, ast.comprehension):
+            bound |= set(x.id for x in ast.walk(n.target) if isinstance(x, ast.Name))
+        elif isinstance(n, ast.Lambda):
+            bound |= set(a.arg for a in n.args.args)
+    return set(n.id for n in ast.walk(node) if isinstance(n, ast.Name) and isinstance(n.ctx, ast.Load)) - bound
+
+
+def resolve_locals(node, fn, depth=4):
+    """copy propagation for comparison purposes: a local that is assigned exactly once in ``fn`` (plain `name = expr`) is replaced by
+    that expression, so that the classification does not depend on how a value is named"""
+    defs = {}
+    for n in ast.walk(fn):
+        if isinstance(n, (ast.Assign, ast.AnnAssign, ast.AugAssign, ast.For, ast.comprehension, ast.With, ast.NamedExpr)):
+            tg = n.targets if isinstance(n, ast.Assign) else ([n.target] if hasattr(n, 'target') else [i.optional_vars for i in getattr(n, 'items', []) if i.optional_vars is not None])
+            for t in tg:
+                for x in ast.walk(t):
+                    if isinstance(x, ast.Name):
+                        ok = isinstance(n, ast.Assign) and len(n.targets) == 1 and t is x
+                        defs.setdefault(x.id, []).append(n.value if ok else None)
+    locs = local_names(fn)
+
+    class R(ast.NodeTransformer):
+        def visit_Name(self, x):
+            if isinstance(x.ctx, ast.Load) and x.id in locs and len(defs.get(x.id, [])) == 1 and defs[x.id][0] is not None:
+                return copy.deepcopy(defs[x.id][0])
+            return x
+    cur = copy.deepcopy(node)
+    for _ in range(depth):
+        before = ast.dump(cur)
+        bound_before = free_names(cur)
+        cur = R().visit(cur)
+        ast.fix_missing_locations(cur)
+        if ast.dump(cur) == before:
+            break
+    return cur
+
+
+def local_names(fn):
+    """names bound inside ``fn`` (assignment / for / with / comprehension / except targets) that are not parameters"""
+    k = id(fn)
+    if k in _LOCALS_CACHE and _LOCALS_CACHE[k][0] is fn:
+        return _LOCALS_CACHE[k][1]
+    a = fn.args
+    params = set(x.arg for x in a.posonlyargs + a.args + a.kwonlyargs)
+    if a.vararg:
+        params.add(a.vararg.arg)
+    if a.kwarg:
+        params.add(a.kwarg.arg)
+    out = set()
+    for n in ast.walk(fn):
+        if isinstance(n, ast.Name) and isinstance(n.ctx, (ast.Store, ast.Del)):
+            out.add(n.id)
+        elif isinstance(n, ast.ExceptHandler) and n.name:
+            out.add(n.name)
+        elif isinstance(n, ast.arg) and n.arg not in params:
+            out.add(n.arg)         # lambda parameters
+    out -= params
+    _LOCALS_CACHE[k] = (fn, out)
+    return out
 
 
 def run_property(prop, tier='quick', only=None, verbose=False):
